@@ -25,6 +25,8 @@ class SymBytes:
 
 
 class SymFile:
+    exact = False       # True: every partial length is its own path (needed when the code looks at more than len / unpack)
+
     def __init__(self, fields, L):
         self.fields = fields
         self.L = L          # int or z3 Int term
@@ -72,7 +74,7 @@ class SymFile:
         self.dead = True
         if bool(SB(L <= p)):
             return SymBytes([], 0, False)
-        if tot <= 16:
+        if tot <= 16 or self.exact:
             for m in range(1, tot):
                 if m == tot - 1:
                     c.pc.append(L == p + m)
@@ -115,3 +117,21 @@ def to_bytes(fields, values=None):
     for k, _, v in fields:
         out += _struct.pack('<i' if k == 'i' else '<d', int(v) if k == 'i' else float(v))
     return out
+
+
+def frombuffer(b, dtype=float, **kw):
+    """np.frombuffer on a typed buffer: whole doubles only (numpy raises ValueError otherwise)"""
+    import numpy as _np
+    if not isinstance(b, SymBytes):
+        return _np.frombuffer(b, dtype=dtype, **kw)
+    if _np.dtype(dtype) != _np.dtype('float64'):
+        raise Realize('frombuffer dtype %r' % (dtype,))
+    if len(b) % 8:
+        raise ValueError('buffer size must be a multiple of element size')
+    n = len(b) // 8
+    out = []
+    for k, size, v in b.fields[:n]:
+        if k != 'd':
+            raise Realize('frombuffer over a non-double field')
+        out.append(v)
+    return _np.array(out, dtype=object)
